@@ -9,7 +9,8 @@
 (* lib/checks/c05.py turns verdicts into violations / known findings and   *)
 (* checks that every record was reached).                                  *)
 (*   "reject"       the delivered fields are not an allowed result         *)
-(*   "unspecified"  nothing is required of this word (counted)             *)
+(*   "unspecified"  a component of the word has no specified meaning; the   *)
+(*                  result passed the weak judgement (existing, sorted)     *)
 (*   "outside"      the expansion reads a directory that is not modelled   *)
 (*   "bad-input"    the record is not a well-formed case (tool error)      *)
 (***************************************************************************)
@@ -30,7 +31,9 @@ Judge(r) ==
   THEN "bad-input"
   ELSE IF r.pn THEN "reject"
   ELSE IF r.ng THEN (IF r.out \in Allowed(r.us, T, r.cwd, TRUE) THEN "ok" ELSE "reject")
-  ELSE IF Unspecified(r.us) THEN "unspecified"
+  ELSE IF Unspecified(r.us)
+  THEN (IF WeakScansOutside(r.us, T, r.cwd, "w") THEN "outside"
+        ELSE IF WeakAllowed(r.out, r.us, T, r.cwd) THEN "unspecified" ELSE "reject")
   ELSE IF ScansOutside(r.us, T, r.cwd, "w") THEN "outside"
   ELSE IF r.out \in Allowed(r.us, T, r.cwd, FALSE) THEN "ok" ELSE "reject"
 
